@@ -117,6 +117,40 @@ CLAIMED.update({
          'driven through the callable-method API on dense counts).',
     ref='DESIGN.md section 8 C16'),
 })
+E2 = ('interpretation of the kernels from the TYPED syntax tree of the installed Cython front end (per fused specialisation) over z3 values: '
+      'per-access bounds obligations for unbounded extents, prange iteration-independence obligations, exact-integer arithmetic with a '
+      'representability obligation per C operation, functional equality at small extents; counterexamples replayed on the extension built from the current .pyx')
+CLAIMED.update({
+ 'C13': dict(engine='cy2smt',
+    technique='Cython typed tree -> SMT: bounds + prange-independence obligations with unbounded symbolic extents; exact-integer functional obligations with C-type representability; z3',
+    text='Every fused specialisation of _euclidean/_manhattan/_hamming and the wrappers is interpreted from the tree Cython itself typed. With '
+         'extents as unbounded solver integers z3 proves every buffer access under boundscheck(False) in range (or the wrapper rejects the '
+         'input), and that no prange iteration touches a location another one writes (=> thread/schedule independence). With 2x2 (2x3) symbolic '
+         'contents over the full range of each element type it proves the value is the 2-norm / 1-norm / mismatch fraction and that no C integer '
+         'operation can overflow; result is 1-D float64 and is the out buffer when given.',
+    note='Trusted: Cython front end (types), the small interpreter (validated on every witness against the compiled kernel in C/F/strided '
+         'layouts and 1/4/16 threads), z3, Cython-generated buffer acquisition. Floats are reals. Out-of-bounds counterexamples are replayed '
+         'on a bounds-checked build of the same source; races are reported separately as UB-CANDIDATE.',
+    ref='DESIGN.md sections 4 and 8 C13'),
+ 'C18': dict(engine='symnp + cy2smt',
+    technique='kernel: Cython typed tree -> SMT (bounds under the function assertions, prange independence, exact counts); Python: symbolic execution of mutual_information/channel_capacity_normalization/shannon_entropy/kl_divergence with log uninterpreted; z3',
+    text='matrix_bincount2d is interpreted from its typed tree: exact joint counts for every integer element type at small extents, memory '
+         'safety for unbounded extents under its own assertions (state ids out of range and mismatched lengths rejected), prange independence. '
+         'mutual_information is proved invariant under relabelling of states and under swapping the two sides, equal to the Shannon entropy on '
+         'diagonal tables, KL(P,P)=0, and the normalisation divides entry (i,j) by log(min(n_x[i], n_y[j])) for different feature/state counts.',
+    note='Trusted: both engines, z3, log as uninterpreted function with the instances log(1)=0, log(1/p)=-log p. Outside: MI>=0, MI<=min(H), '
+         'KL>=0 as transcendental inequalities; weighted_mi (uniform weights) is not covered.',
+    ref='DESIGN.md section 8 C18'),
+ 'C19': dict(engine='symnp + cy2smt',
+    technique='2-safety on uninitialised-memory variables (fresh cells of arbitrary IEEE kind) in symbolic runs of the routines that allocate masked-ufunc outputs; prange independence obligations; AST scan of uninitialised-output sites; z3',
+    text='Memory NumPy does not initialise (masked ufunc without out=, np.empty) is modelled as fresh cells that may be finite, inf or NaN; z3 '
+         'proves the results of shannon_entropy and mutual_information do not depend on them; an AST scan lists every such site in the anchored '
+         'files and reports the ones no harness executes. Thread independence comes from the prange obligations of the kernels; input '
+         'immutability is an obligation of every other harness. Counterexamples are replayed by calling the real function after freeing '
+         'NaN/inf-filled blocks.',
+    note='Trusted: shim, z3. Worker processes and the allocator itself are outside the claim.',
+    ref='DESIGN.md section 8 C19'),
+})
 PENDING = 'check not built yet in this session (work in progress; see DESIGN.md section 8 for the plan)'
 NA = {}
 
@@ -144,6 +178,7 @@ m = {
            'source_commits': [], 'add_only': True},
  'engines': [
    {'name': 'symnp', 'path': 'symnp/', 'serves_properties': sorted(CLAIMED), 'kind_free_text': E1},
+   {'name': 'cy2smt', 'path': 'cy2smt/', 'serves_properties': ['C12', 'C13', 'C18', 'C19'], 'kind_free_text': E2},
  ],
  'checks': checks,
  'not_applicable': na,
